@@ -119,7 +119,7 @@ def obligations(tier):
     obs.append(Ob('C14.scope.unknown-rule', 'harness.C14', 'scope_unknown_rule', bind={'maxlen': ml}, timeout=t, functions=F_SCOPE,
                   bounds=f'two unconstrained symbolic scopes <= {ml} characters; rule: unconstrained symbolic text of 1..3 characters',
                   claim='a rule that is none of the defined rule URIs never matches and never raises'))
-    sym_cases = [(p, 2 - (p == 2), False) for p in range(4)]        # partner 'a' (no scheme, no authority) lets the symbolic text
+    sym_cases = [(p, 2 - (p == 2), p == 2) for p in range(4)]       # partner 'a' (no scheme, no authority) lets the symbolic text
     if not quick:                                                   # reach the segment comparison: one character less there
         sym_cases += [(p, 3 - (p == 2), True) for p in range(4)]
     for p, ml, asc in sym_cases:
@@ -196,9 +196,26 @@ def obligations(tier):
                       stubs=S_NODE + [f'_known_message_ids = deque(maxlen={ml2}) instead of 200 (assigned by the harness)'],
                       bounds=f'4 Hellos (versions 1..4, ids from a pool of 3, each with or without XAddrs: without, the node sends a '
                              f'Resolve whose id enters the same memory), id memory of {ml2}',
-                      claim='received and sent ids share one memory consistently: an id is acted on iff it is not among the last ids seen '
-                            'or sent'))
-    obs.append(Ob('C14.probe.answer', 'harness.C14', 'probe_answer', timeout=t, functions=F_PROBE, stubs=S_NODE,
+                      claim='an id is acted on iff it is not among the last ids received (own outbound ids are kept apart and do not push '
+                            'received ids out)'))
+    obs.append(Ob('C14.probe.answer.with_old_namespace_declared', 'harness.C14', 'probe_answer', bind={'decl': True, 'race': False},
+                  timeout=t, functions=F_PROBE + ['sdc11073.wsdiscovery.networkingthread.NetworkingThread._run_q_read'], stubs=S_NODE,
+                  bounds='as C14.probe.answer; the valid 2009/01 Probe declares (and does not use) a prefix for the 2005/04 discovery namespace',
+                  claim='the Probe is answered exactly like the one without that declaration'))
+    obs.append(Ob('C14.probe.answer.while_publishing', 'harness.C14', 'probe_answer', bind={'decl': False, 'race': True, 'rule': 0},
+                  timeout=t, functions=F_PROBE, stubs=S_NODE + ['the application thread is simulated: the first call of matches_filter '
+                                                               'publishes a third service (deterministic interleaving)'],
+                  bounds='as C14.probe.answer with MatchBy absent; publish_service runs while the Probe is being matched',
+                  claim='the handler does not fail; every matching service published before the Probe is in the answer'))
+    obs.append(Ob('C14.scope.octets', 'harness.C14', 'scope_octets', timeout=t, functions=['sdc11073.wsdiscovery.wsdimpl.match_scope'], stubs=[],
+                  bounds='10 x 10 percent-encoded segments whose octets are / are not utf-8 (%E4 %F6 %FF %FE %C3%A4 U+00E4 %80%81 %C0%AF a %61), '
+                         'equal depth or one segment deeper',
+                  claim='segments match iff their decoded octets are equal'))
+    obs.append(Ob('C14.remote.same_version_partial', 'harness.C14', 'same_version_partial', timeout=t, functions=F_PROBE[:0] + [
+                      'sdc11073.wsdiscovery.wsdimpl.WSDiscovery._add_remote_service'], stubs=S_NODE,
+                  bounds='Hello(v1, complete) then ProbeMatches / ResolveMatches(v1) without Types / with empty Scopes / without both',
+                  claim='what version 1 announced stays recorded'))
+    obs.append(Ob('C14.probe.answer', 'harness.C14', 'probe_answer', bind={'decl': False, 'race': False}, timeout=t, functions=F_PROBE, stubs=S_NODE,
                   bounds='2 services published via publish_service (A: one of 4 kinds; B: T1,T2 / X:/a/b y:/a); Probe with Types in {[], [T1], '
                          '[T2], [T1,T2], [T3]}, Scopes in {None, empty, 1 URI, 2 URIs} over 4 URIs, MatchBy in {absent, rfc3986, strcmp0, unknown}',
                   claim='ProbeMatches are queued for exactly the published services that offer all types and match all scopes, once each, '
